@@ -46,6 +46,7 @@ ASSUMPTIONS = [
 ]
 FAULT_KINDS = ["same_name_other_template", "snapped_coordinates", "repeat_vector", "reused_receiver",
                "slack_pairs>=2", "second_objective_object",
+               "other_objective_configuration",
                "reevaluate_after_other_instance"]
 PROBES = ["slack_cut_refused_for_area", "direction_switched_after_wrap",
           "equal_items_merged", "neighbour_item_tried", "witness:documented",
@@ -197,7 +198,8 @@ def _generate(rng: random.Random, batch: dict) -> dict:
                 kind = rng.choice(["errors", "hardness", "hardness", "both"])
             else:
                 kind = "errors"
-            ops.append({"op": kind, "on": on, "obj": rng.choice([0, 0, 1])})
+            ops.append({"op": kind, "on": on,
+                        "obj": rng.choice([0, 0, 1, 2])})
     return {"template": template, "k": k, "hardness": hard, "ops": ops}
 
 
@@ -251,6 +253,18 @@ def directed(tier: str) -> list:
                          {"op": "both", "on": "template", "obj": 0},
                          {"op": "both", "on": "decoded:0", "obj": 0},
                          {"op": "both", "on": "decoded:0", "obj": 1}]})
+    # ... and whatever a differently configured objective did in between
+    docs.append({"template": small, "k": 1,
+                 "hardness": {"max_fes": 20, "n_runs": 2},
+                 "ops": [{"op": "decode", "x": "auto:0.41", "how": "uniform",
+                          "reuse": False},
+                         {"op": "hardness", "on": "decoded:0", "obj": 0},
+                         {"op": "hardness", "on": "decoded:0", "obj": 2},
+                         {"op": "hardness", "on": "decoded:0", "obj": 0},
+                         {"op": "both", "on": "template", "obj": 0},
+                         {"op": "both", "on": "template", "obj": 2},
+                         {"op": "both", "on": "template", "obj": 0},
+                         {"op": "hardness", "on": "decoded:0", "obj": 2}]})
     return docs
 
 
@@ -388,12 +402,17 @@ def _execute_one(doc: dict, tname) -> dict:
             if kind == "errors":
                 objs[key] = Errors(space)
             elif kind == "hardness":
-                objs[key] = Hardness(int(hp["max_fes"]), int(hp["n_runs"]))
+                objs[key] = Hardness(int(hp["max_fes"]),
+                                     int(hp["n_runs"]) + (slot == 2))
             else:
                 objs[key] = ErrorsAndHardness(space, int(hp["max_fes"]),
-                                              int(hp["n_runs"]))
+                                              int(hp["n_runs"]) + (slot == 2))
             if slot > 0:
                 core.bump(res["faults"], "second_objective_object")
+            if slot == 2:
+                # a differently configured objective (one more inner run per
+                # setup) used in turns with the others in the same process
+                core.bump(res["faults"], "other_objective_configuration")
         return objs[key]
 
     decoded: list = []          # Instance per decode op
@@ -559,7 +578,7 @@ def _execute_one(doc: dict, tname) -> dict:
                                    f"template {cs}")
                     break
                 core.bump(res["probes"], "errors_on_template_zero")
-            key = (kind, cs)
+            key = (kind, cs, slot == 2 and kind != "errors")
             lk = (kind, slot)
             if key in values:
                 spice = True
